@@ -30,7 +30,8 @@ REQUIRED = ["op.scenario.remove_lanelet", "op.scenario.remove_lanelet-list", "op
             "incoming-relation-between-survivors.successors_right", "incoming-relation-between-survivors.successors_left",
             "cutout-shape.group", "cutout-shape.polygon", "cutout-after-deferred-add",
             "removal-after-cutout.other-network-rechecked.source", "removal-after-cutout.other-network-rechecked.cut-out",
-            "removal-after-cutout.via-network.remove_lanelet", "removal-after-cutout.via-scenario.remove_lanelet"]
+            "removal-after-cutout.via-network.remove_lanelet", "removal-after-cutout.via-scenario.remove_lanelet",
+            "complete-copy-compared-with-source"]
 ASSUMPTIONS = ["'left_of' between incomings, first occurrences of signs and areas are not in the statement's list",
                "for cut-outs the statement does not fix which incoming elements survive; only their content is judged"]
 SHARDS = {"quick": 4, "thorough": 16}
@@ -477,8 +478,9 @@ def run(ctx):
         net = gen_network(rng)
         lids = sorted(l.lanelet_id for l in net.lanelets)
         a, b, c = rng.sample(lids, 3)
-        net.add_intersection(Intersection(900, [IntersectionIncomingElement(901, {a}, {b}, {c}, set()),
-                                                IntersectionIncomingElement(902, {b}, set(), {a}, {c})], {c}))
+        net.add_intersection(Intersection(900, [IntersectionIncomingElement(901, {a}, {b}, {c}, set(), left_of=902),
+                                                IntersectionIncomingElement(902, {b}, set(), {a}, {c}),
+                                                IntersectionIncomingElement(903, {c}, set(), {b}, set(), left_of=901)], {c}))
         how = ("none", "shape-around-everything", "types-nobody-has")[i % 3]
         shape = Rectangle(4000.0, 4000.0, np.array([0.0, 0.0]), 0.0) if how == "shape-around-everything" else None
         types = {LaneletType.INTERSTATE} if how == "types-nobody-has" else None
@@ -496,6 +498,25 @@ def run(ctx):
         dfs = S.diff(_sk(src_before), _sk(snap(net)), S.real_ok_bits)
         if dfs:
             ctx.violation("C10/cutout/changed-the-source-network" + S.generalise(dfs[0][0]), "%s: %s -> %s" % dfs[0], wit)
+            continue
+        # nothing was selected for removal: the cut-out is a complete copy, "every element ... with unchanged content"
+        sa, sb = snap_all(net), snap_all(new)
+        for cat in ("lanelets", "signs", "lights"):
+            sb[cat] = {k: v for k, v in sb[cat].items()}
+        # (signs / lights / intersections that no kept lanelet refers to may be left out by a cut-out: compare the common ones)
+        # (... and which incoming elements of an intersection survive is not fixed either: those present in both)
+        for iid in list(sa["intersections"]):
+            if iid in sb["intersections"]:
+                both = set(sa["intersections"][iid]["incomings"]) & set(sb["intersections"][iid]["incomings"])
+                for side in (sa, sb):
+                    side["intersections"][iid]["incomings"] = {k: v for k, v in side["intersections"][iid]["incomings"].items()
+                                                               if k in both}
+        common = {cat: {k: sa[cat][k] for k in sa[cat] if k in sb[cat]} for cat in sa}
+        dfs = S.diff(_sk(common), _sk({cat: {k: sb[cat][k] for k in common[cat]} for cat in sb}), S.real_ok_bits)
+        ctx.feature("complete-copy-compared-with-source")
+        if dfs:
+            ctx.violation("C10/cutout.%s/element-of-a-complete-copy-differs-from-the-source%s" % (how, S.generalise(dfs[0][0])),
+                          "%s: source %s, copy %s" % dfs[0], wit)
             continue
         on_cut = (i // 3) % 2 == 0
         act, other, role = (new, net, "source") if on_cut else (net, new, "cut-out")
